@@ -22,7 +22,7 @@ def all_harnesses():
                 for m in range(0, u + 1):
                     if not pt:
                         continue  # untagged consumes are C01
-                    core = cap == 2 and (m == 0 or m == u or len(pt) == 2)
+                    core = (cap == 2 and (m == 0 or m == u or len(pt) == 2)) or (cap == 3 and r == 2 and u == 3 and len(pt) == 1 and m in (0, 1))
                     hs.append(c01.step("u8", cap, r, u, "consume", m, core, pre_tags=pt, prop="c02"))
                 # produces
                 for n in range(1, cap - u + 1):
@@ -31,7 +31,7 @@ def all_harnesses():
                             continue
                         if len(pt) + len(ct) > 3:
                             continue
-                        core = cap == 2 and len(pt) <= 1 and (len(ct) >= 1)
+                        core = (cap == 2 and len(pt) <= 1 and (len(ct) >= 1)) or (cap == 3 and r == 2 and u == 1 and n == 2 and len(ct) == 1 and len(pt) <= 1)
                         hs.append(c01.step("u8", cap, r, u, "produce", n, core, pre_tags=pt, ctags=ct, prop="c02"))
     # tagged histories (public API only): commit with a tag, wrap, consume 0, ...
     OPN = c01.OPN
